@@ -22,3 +22,15 @@ pub assume_specification[ i64::abs ](x: i64) -> (r: i64)
     ensures
         r as int == (if x >= 0 { x as int } else { -(x as int) }),
 ;
+
+pub assume_specification[ i32::saturating_add ](x: i32, y: i32) -> (r: i32)
+    ensures
+        r as int == (if x + y > i32::MAX { i32::MAX as int } else if x + y < i32::MIN { i32::MIN as int } else { x + y }),
+;
+
+pub assume_specification[ i64::pow ](x: i64, e: u32) -> (r: i64)
+    requires
+        i64::MIN <= vstd::arithmetic::power::pow(x as int, e as nat) <= i64::MAX,
+    ensures
+        r as int == vstd::arithmetic::power::pow(x as int, e as nat),
+;
